@@ -28,9 +28,9 @@ type aggCase struct {
 
 func c14Domains() map[string][]octosql.Value {
 	return map[string][]octosql.Value{
-		"Int":      {octosql.NewInt(-3), octosql.NewInt(2), octosql.NewInt(7)},
-		"Float":    {octosql.NewFloat(0.5), octosql.NewFloat(-2.0), octosql.NewFloat(1.5)},
-		"Duration": {octosql.NewDuration(time.Second), octosql.NewDuration(-2 * time.Second), octosql.NewDuration(3 * time.Second)},
+		"Int":      {octosql.NewInt(-3), octosql.NewInt(3), octosql.NewInt(7)}, // incl. an additive inverse: a net sum of 0 over a non-empty multiset
+		"Float":    {octosql.NewFloat(0.5), octosql.NewFloat(-0.5), octosql.NewFloat(1.5)},
+		"Duration": {octosql.NewDuration(time.Second), octosql.NewDuration(-time.Second), octosql.NewDuration(3 * time.Second)},
 		"String":   {octosql.NewString(""), octosql.NewString("a"), octosql.NewString("B")},
 		"Boolean":  {octosql.NewBoolean(false), octosql.NewBoolean(true)},
 	}
